@@ -75,7 +75,7 @@ private theorem inv_attach (s : St) (p c : Nat) (l : List Nat) (h : Inv s) (hc :
     · subst hq; simpa using hn
     · simp [hq, h3 q]
 
-private theorem acyclic_attach (s : St) (p c : Nat) (l : List Nat) (h : Inv s) (ha : Acyclic s)
+private theorem acyclic_attach (s : St) (p c : Nat) (l : List Nat) (_h : Inv s) (ha : Acyclic s)
     (hc : s.parent c = none) (hcyc : ¬ Anc s c p) :
     Acyclic (setKids (setParent s c (some p)) p l) := by
   obtain ⟨d, hd⟩ := ha
@@ -194,5 +194,516 @@ theorem remove_detaches (s : St) (p c : Nat) (h : Inv s) (hc : c ∈ s.kids p) :
   refine ⟨?_, hpar, ?_, hall p, hall⟩
   · unfold remove cRemove; simp [hc]
   · unfold remove cRemove; simp [hc, setKids, setLoc, setParent]
+
+
+
+private theorem inv_of_eq {s t : St} (hp : t.parent = s.parent) (hk : t.kids = s.kids) (h : Inv s) : Inv t :=
+  ⟨by rw [hp, hk]; exact h.1, by rw [hp, hk]; exact h.2, by rw [hk]; exact h.3⟩
+
+private theorem acyclic_of_eq {s t : St} (hp : t.parent = s.parent) (h : Acyclic s) : Acyclic t := by
+  obtain ⟨d, hd⟩ := h; exact ⟨d, by rw [hp]; exact hd⟩
+
+/-! ### class-dispatched add / insert -/
+theorem add_inv (s : St) (p c : Nat) (h : Inv s) (hc : s.parent c = none) : Inv (add s p c).1 := by
+  have hi := cAdd_inv s p c h hc
+  have hnot : c ∉ s.kids p := by intro hq; have := h.1 p c hq; simp [hc] at this
+  unfold add
+  by_cases h1 : s.kind p = kAssembly
+  · simp only [h1, if_true]
+    by_cases h2 : s.kind c ≠ kBlock
+    · rw [if_pos h2]; exact h
+    · rw [if_neg h2]
+      have hok : (cAdd s p c).2 = true := by simp [cAdd, hnot]
+      simp only [hok, if_true]
+      exact inv_of_eq (s := (cAdd s p c).1) rfl rfl hi
+  · simp only [h1, if_false]
+    by_cases h3 : s.kind p = kCore
+    · simp only [h3, if_true]
+      have hok : (cAdd s p c).2 = true := by simp [cAdd, hnot]
+      simp only [hok, if_true]
+      exact inv_of_eq (s := (cAdd s p c).1) rfl rfl hi
+    · simp only [h3, if_false]; exact hi
+
+theorem insert_inv (s : St) (p : Nat) (i : Int) (c : Nat) (h : Inv s) (hc : s.parent c = none) :
+    Inv (insert s p i c).1 := by
+  have hi := cInsert_inv s p i c h hc
+  have hnot : c ∉ s.kids p := by intro hq; have := h.1 p c hq; simp [hc] at this
+  unfold insert
+  by_cases h1 : s.kind p = kAssembly
+  · simp only [h1, if_true]
+    by_cases h2 : s.kind c ≠ kBlock
+    · rw [if_pos h2]; exact h
+    · rw [if_neg h2]
+      have hok : (cInsert s p i c).2 = true := by simp [cInsert, hnot]
+      simp only [hok, if_true]
+      exact inv_of_eq (s := (cInsert s p i c).1) rfl rfl hi
+  · simp only [h1, if_false]; exact hi
+
+/-! ### removeAll / setChildren -/
+private theorem cRemove_parent_other (s : St) (p c x : Nat) (hx : x ≠ c) : (cRemove s p c).1.parent x = s.parent x := by
+  unfold cRemove; split <;> simp [setKids, setLoc, setParent, hx]
+
+private theorem cRemove_kids (s : St) (p c : Nat) (hc : c ∈ s.kids p) (q : Nat) :
+    (cRemove s p c).1.kids q = if q = p then (s.kids p).erase c else s.kids q := by
+  unfold cRemove; simp [hc, setKids, setLoc, setParent]
+
+/-- removing the listed children one by one (any duplicate-free sub-list of the child list) -/
+private theorem seqRemove_inv (p : Nat) : ∀ (l : List Nat) (s : St), Inv s → l.Nodup → (∀ c ∈ l, c ∈ s.kids p) →
+    Inv (seqOps (fun t c => remove t p c) s l).1 ∧ (seqOps (fun t c => remove t p c) s l).2 = true ∧
+    (∀ q, q ≠ p → (seqOps (fun t c => remove t p c) s l).1.kids q = s.kids q) ∧
+    (∀ x, x ∈ (seqOps (fun t c => remove t p c) s l).1.kids p ↔ (x ∈ s.kids p ∧ x ∉ l)) ∧
+    (∀ x, x ∉ l → (seqOps (fun t c => remove t p c) s l).1.parent x = s.parent x) ∧
+    (∀ x, x ∈ l → (seqOps (fun t c => remove t p c) s l).1.parent x = none) := by
+  intro l
+  induction l with
+  | nil => intro s h _ _; simp [seqOps]; exact h
+  | cons c rest ih =>
+    intro s h hnd hall
+    have hc : c ∈ s.kids p := hall c (by simp)
+    have hnd' := List.nodup_cons.mp hnd
+    have hi := cRemove_inv s p c h hc
+    have hk := cRemove_kids s p c hc
+    have hrest : ∀ x ∈ rest, x ∈ (cRemove s p c).1.kids p := by
+      intro x hx
+      rw [hk p]; simp
+      have hne : x ≠ c := by intro e; subst e; exact hnd'.1 hx
+      exact (List.mem_erase_of_ne hne).mpr (hall x (by simp [hx]))
+    have hok : (cRemove s p c).2 = true := by unfold cRemove; simp [hc]
+    have step : seqOps (fun t c => remove t p c) s (c :: rest) =
+        seqOps (fun t c => remove t p c) (cRemove s p c).1 rest := by
+      have e : cRemove s p c = ((cRemove s p c).1, true) := Prod.ext rfl hok
+      simp only [seqOps, List.foldl_cons, remove, if_true]
+      rw [← e]
+    rw [step]
+    obtain ⟨i1, i2, i3, i4, i5, i6⟩ := ih (cRemove s p c).1 hi hnd'.2 hrest
+    refine ⟨i1, i2, ?_, ?_, ?_, ?_⟩
+    · intro q hq; rw [i3 q hq, hk q]; simp [hq]
+    · intro x; rw [i4 x, hk p]; simp
+      constructor
+      · rintro ⟨hx, hxr⟩
+        have hne : x ≠ c := by
+          intro e; subst e; exact (List.Nodup.not_mem_erase (h.3 p)) hx
+        exact ⟨List.mem_of_mem_erase hx, hne, hxr⟩
+      · rintro ⟨hx, hne, hxr⟩
+        exact ⟨(List.mem_erase_of_ne hne).mpr hx, hxr⟩
+    · intro x hx
+      simp at hx
+      rw [i5 x hx.2, cRemove_parent_other s p c x hx.1]
+    · intro x hx
+      simp at hx
+      rcases hx with hx | hx
+      · subst hx
+        by_cases hxr : x ∈ rest
+        · exact i6 x hxr
+        · rw [i5 x hxr]; unfold cRemove; simp [hc, setKids, setLoc, setParent]
+      · exact i6 x hx
+
+/-- **`removeAll` keeps the tree well formed and leaves the former children parentless** (no precondition) -/
+theorem removeAll_inv (s : St) (p : Nat) (h : Inv s) :
+    Inv (removeAll s p).1 ∧ (removeAll s p).2 = true ∧ (removeAll s p).1.kids p = [] ∧
+    (∀ x ∈ s.kids p, (removeAll s p).1.parent x = none) ∧
+    (∀ x, x ∉ s.kids p → (removeAll s p).1.parent x = s.parent x) := by
+  obtain ⟨i1, i2, _, i4, i5, i6⟩ := seqRemove_inv p (s.kids p) s h (h.3 p) (fun c hc => hc)
+  refine ⟨i1, i2, ?_, fun x hx => i6 x hx, i5⟩
+  apply List.eq_nil_iff_forall_not_mem.mpr
+  intro x hx
+  have := (i4 x).mp hx
+  exact this.2 this.1
+
+theorem add_ok (s : St) (p c : Nat) (h : Inv s) (hc : s.parent c = none) (hk : s.kind p = kAssembly → s.kind c = kBlock) :
+    (add s p c).2 = true := by
+  have hnot : c ∉ s.kids p := by intro hq; have := h.1 p c hq; simp [hc] at this
+  have hok : (cAdd s p c).2 = true := by simp [cAdd, hnot]
+  unfold add
+  by_cases h1 : s.kind p = kAssembly
+  · simp [h1, hk h1, hok]
+  · by_cases h3 : s.kind p = kCore
+    · rw [if_neg h1, if_pos h3]; simp [hok]
+    · rw [if_neg h1, if_neg h3]; exact hok
+
+private theorem add_parent_other (s : St) (p c x : Nat) (hx : x ≠ c) : (add s p c).1.parent x = s.parent x := by
+  unfold add cAdd reestablish
+  repeat' split
+  all_goals simp_all [setKids, setLoc, setParent]
+
+private theorem add_kind (s : St) (p c x : Nat) : (add s p c).1.kind x = s.kind x := by
+  unfold add cAdd reestablish
+  repeat' split
+  all_goals simp_all [setKids, setLoc, setParent]
+
+/-- adding a duplicate-free list of parentless objects one by one -/
+private theorem seqAdd_inv (p : Nat) : ∀ (l : List Nat) (s : St), Inv s → l.Nodup → (∀ c ∈ l, s.parent c = none) →
+    Inv (seqOps (fun t c => add t p c) s l).1 := by
+  intro l
+  induction l with
+  | nil => intro s h _ _; simpa [seqOps] using h
+  | cons c rest ih =>
+    intro s h hnd hall
+    have hnd' := List.nodup_cons.mp hnd
+    have hi := add_inv s p c h (hall c (by simp))
+    simp only [seqOps, List.foldl_cons, if_true]
+    by_cases hok : (add s p c).2 = true
+    · have e : add s p c = ((add s p c).1, true) := Prod.ext rfl hok
+      rw [e]
+      apply ih _ hi hnd'.2
+      intro x hx
+      have hne : x ≠ c := by intro e; subst e; exact hnd'.1 hx
+      rw [add_parent_other s p c x hne]; exact hall x (by simp [hx])
+    · -- the loop stops at the first refusal; nothing more changes
+      have hfalse : (add s p c).2 = false := by simpa using hok
+      have e : add s p c = ((add s p c).1, false) := Prod.ext rfl hfalse
+      rw [e]
+      have stop : ∀ (l : List Nat) (t : St), (l.foldl (fun acc c => if acc.2 = true then add acc.1 p c else acc) (t, false)) = (t, false) := by
+        intro l; induction l with
+        | nil => intro t; rfl
+        | cons a l ih2 => intro t; simp [List.foldl_cons, ih2]
+      rw [stop]; exact hi
+
+/-- **`setChildren` keeps the tree well formed** when the new children are distinct and each is
+parentless or already a child of the same parent. -/
+theorem setChildren_inv (s : St) (p : Nat) (items : List Nat) (h : Inv s) (hnd : items.Nodup)
+    (hit : ∀ c ∈ items, s.parent c = none ∨ s.parent c = some p) : Inv (setChildren s p items).1 := by
+  obtain ⟨i1, i2, _, i4, i5⟩ := removeAll_inv s p h
+  unfold setChildren
+  simp only [i2, if_true]
+  apply seqAdd_inv p items _ i1 hnd
+  intro c hc
+  by_cases hk : c ∈ s.kids p
+  · exact i4 c hk
+  · rw [i5 c hk]
+    rcases hit c hc with h0 | h1
+    · exact h0
+    · exact absurd (h.2 c p h1) hk
+
+
+
+/-! ### sort / reestablishBlockOrder / moveTo: child lists are permuted, parents untouched -/
+
+private theorem insSorted_perm (rank : Nat → Nat) (x : Nat) : ∀ l, (insSorted rank x l).Perm (x :: l)
+  | [] => List.Perm.refl _
+  | y :: ys => by
+    unfold insSorted
+    split
+    · exact ((insSorted_perm rank x ys).cons y).trans (List.Perm.swap x y ys)
+    · exact List.Perm.refl _
+
+private theorem stableSort_perm (rank : Nat → Nat) : ∀ l, (stableSort rank l).Perm l
+  | [] => List.Perm.refl _
+  | x :: xs => by
+    show (insSorted rank x (stableSort rank xs)).Perm (x :: xs)
+    exact (insSorted_perm rank x _).trans ((stableSort_perm rank xs).cons x)
+
+/-- what `Composite.sort` may do: parents untouched, every child list permuted -/
+def SamePerm (s t : St) : Prop := t.parent = s.parent ∧ ∀ q, (t.kids q).Perm (s.kids q)
+
+private theorem SamePerm.refl (s : St) : SamePerm s s := ⟨rfl, fun _ => List.Perm.refl _⟩
+private theorem SamePerm.trans {a b c : St} (h1 : SamePerm a b) (h2 : SamePerm b c) : SamePerm a c :=
+  ⟨h2.1.trans h1.1, fun q => (h2.2 q).trans (h1.2 q)⟩
+
+private theorem foldl_samePerm (f : St → Nat → St) (hf : ∀ t c, SamePerm t (f t c)) :
+    ∀ (l : List Nat) (s : St), SamePerm s (l.foldl f s)
+  | [], s => SamePerm.refl s
+  | c :: rest, s => (hf s c).trans (foldl_samePerm f hf rest (f s c))
+
+theorem sortRec_samePerm (rank : Nat → Nat) : ∀ (fuel : Nat) (s : St) (p : Nat), SamePerm s (sortRec rank fuel s p)
+  | 0, s, _ => SamePerm.refl s
+  | f + 1, s, p => by
+    unfold sortRec
+    have h1 : SamePerm s (setKids s p (stableSort rank (s.kids p))) := by
+      refine ⟨rfl, fun q => ?_⟩
+      simp only [setKids]
+      by_cases hq : q = p
+      · subst hq; simpa using stableSort_perm rank _
+      · simp [hq]
+    exact h1.trans (foldl_samePerm _ (fun t c => sortRec_samePerm rank f t c) _ _)
+
+theorem inv_samePerm {s t : St} (hp : SamePerm s t) (h : Inv s) : Inv t := by
+  refine ⟨?_, ?_, ?_⟩
+  · intro p c hc; rw [hp.1]; exact h.1 p c ((hp.2 p).mem_iff.mp hc)
+  · intro c p hc; rw [hp.1] at hc; exact (hp.2 p).mem_iff.mpr (h.2 c p hc)
+  · intro p; exact (hp.2 p).nodup_iff.mpr (h.3 p)
+
+/-- **`sort` (recursive, any comparator ranks) keeps the tree well formed.** -/
+theorem sort_inv (rank : Nat → Nat) (fuel : Nat) (s : St) (p : Nat) (h : Inv s) : Inv (sortRec rank fuel s p) :=
+  inv_samePerm (sortRec_samePerm rank fuel s p) h
+
+/-! ### traversals -/
+
+/-- **predicate filter spec**: `_iterChildren` with a predicate = the unfiltered traversal, filtered -/
+theorem iterC_pred_spec (s : St) (chk : Nat → Bool) :
+    ∀ (fuel : Nat) (deep : Bool) (g : Int) (n : Nat),
+      iterC s fuel deep g chk n = (iterC s fuel deep g (fun _ => true) n).filter chk
+  | 0, _, _, _ => by simp [iterC]
+  | f + 1, deep, g, n => by
+    unfold iterC
+    have ih := fun c => iterC_pred_spec s chk f deep (g - 1) c
+    simp only [List.filter_append]
+    congr 1
+    · split <;> simp
+    · split
+      · rw [List.filter_flatMap]
+        congr 1; funext c; exact ih c
+      · simp
+
+/-- the naive walk: objects at depth exactly `k` below `n`, left to right -/
+def level (s : St) : Nat → Nat → List Nat
+  | 0, n => [n]
+  | k + 1, n => (s.kids n).flatMap (level s k)
+
+/-- **generation spec**: `getChildren(generationNum = k)` (k ≥ 1, enough fuel) returns exactly the
+depth-`k` objects in left-to-right order; for `k ≤ 0` nothing. -/
+theorem iterC_gen_spec (s : St) : ∀ (k fuel : Nat) (n : Nat), k < fuel →
+    iterC s fuel false ((k : Int) + 1) (fun _ => true) n = level s (k + 1) n
+  | 0, f + 1, n, _ => by
+    unfold iterC level
+    simp [level]
+  | k + 1, f + 1, n, hk => by
+    unfold iterC
+    have h1 : ((↑(k + 1) : Int) + 1 == 1) = false := by
+      apply beq_false_of_ne; omega
+    have h2 : decide ((↑(k + 1) : Int) + 1 > 1) = true := by
+      apply decide_eq_true; omega
+    simp only [Bool.false_or, h1, h2, if_true]
+    show (s.kids n).flatMap _ = (s.kids n).flatMap (level s (k + 1))
+    congr 1; funext c
+    have : ((↑(k + 1) : Int) + 1 - 1) = (k : Int) + 1 := by omega
+    rw [this]
+    exact iterC_gen_spec s k f c (by omega)
+
+theorem iterC_gen_nonpos (s : St) (fuel : Nat) (g : Int) (hg : g ≤ 0) (chk : Nat → Bool) (n : Nat) :
+    iterC s fuel false g chk n = [] := by
+  cases fuel with
+  | zero => rfl
+  | succ f =>
+    unfold iterC
+    have h1 : (g == 1) = false := by apply beq_false_of_ne; omega
+    have h2 : decide (g > 1) = false := by apply decide_eq_false; omega
+    simp [h1, h2]
+
+/-- **deep traversal = the naive walk**: children first, then each child's walk, in child order;
+and it is the concatenation of the generations 1, 2, … restricted to each child's subtree. -/
+private theorem iterC_deep_unfold (s : St) (f : Nat) (g : Int) (chk : Nat → Bool) (n : Nat) :
+    iterC s (f + 1) true g chk n =
+      (s.kids n).filter chk ++ (s.kids n).flatMap (fun c => iterC s f true (g - 1) chk c) := by
+  simp [iterC]
+
+/-- strict descendants -/
+inductive Desc (s : St) : Nat → Nat → Prop where
+  | child {n c : Nat} : c ∈ s.kids n → Desc s n c
+  | step {n c m : Nat} : c ∈ s.kids n → Desc s c m → Desc s n m
+
+/-- **membership (soundness)**: everything a deep traversal returns is a strict descendant -/
+theorem iterC_deep_sound (s : St) : ∀ (fuel : Nat) (g : Int) (n m : Nat),
+    m ∈ iterC s fuel true g (fun _ => true) n → Desc s n m
+  | 0, _, _, _, h => by simp [iterC] at h
+  | f + 1, g, n, m, h => by
+    rw [iterC_deep_unfold] at h
+    simp only [List.mem_append, List.mem_filter, List.mem_flatMap] at h
+    rcases h with ⟨h, _⟩ | ⟨c, hc, hm⟩
+    · exact Desc.child h
+    · exact Desc.step hc (iterC_deep_sound s f (g - 1) c m hm)
+
+/-- depth-bounded descendants -/
+inductive DescN (s : St) : Nat → Nat → Nat → Prop where
+  | child {n c : Nat} : c ∈ s.kids n → DescN s 1 n c
+  | step {k n c m : Nat} : c ∈ s.kids n → DescN s k c m → DescN s (k + 1) n m
+
+/-- **membership (completeness)**: a descendant at depth `k` is returned as soon as the fuel exceeds `k`
+(the driver uses fuel = number of objects + 1, an upper bound for any depth in an acyclic tree). -/
+theorem iterC_deep_complete (s : St) : ∀ (k fuel : Nat) (g : Int) (n m : Nat), DescN s k n m → k ≤ fuel →
+    m ∈ iterC s fuel true g (fun _ => true) n := by
+  intro k
+  induction k with
+  | zero => intro fuel g n m h; cases h
+  | succ k ih =>
+    intro fuel g n m h hk
+    cases fuel with
+    | zero => omega
+    | succ f =>
+      rw [iterC_deep_unfold]
+      simp only [List.mem_append, List.mem_filter, List.mem_flatMap]
+      cases h with
+      | child hc => exact Or.inl ⟨hc, trivial⟩
+      | step hc hd => exact Or.inr ⟨_, hc, ih f (g - 1) _ m hd (by omega)⟩
+
+/-- **ancestor spec**: the answer of `getAncestorAndDistance` satisfies the predicate, lies on the
+parent chain at the reported distance, and nothing nearer on the chain satisfies it. -/
+def parentIter (s : St) : Nat → Nat → Option Nat
+  | 0, n => some n
+  | k + 1, n => match s.parent n with
+    | none => none
+    | some p => parentIter s k p
+
+theorem getAncestor_spec (s : St) (fn : Nat → Bool) : ∀ (fuel n d : Nat) (a e : Nat),
+    getAncestor s fuel fn n d = some (a, e) →
+      d ≤ e ∧ fn a = true ∧ parentIter s (e - d) n = some a ∧
+      ∀ j, j < e - d → ∀ x, parentIter s j n = some x → fn x = false
+  | 0, _, _, _, _, h => by simp [getAncestor] at h
+  | f + 1, n, d, a, e, h => by
+    unfold getAncestor at h
+    by_cases hf : fn n = true
+    · simp [hf] at h
+      obtain ⟨rfl, rfl⟩ := h
+      refine ⟨Nat.le_refl _, hf, by simp [parentIter], ?_⟩
+      intro j hj; omega
+    · simp [hf] at h
+      cases hp : s.parent n with
+      | none => simp [hp] at h
+      | some p =>
+        simp [hp] at h
+        obtain ⟨h1, h2, h3, h4⟩ := getAncestor_spec s fn f p (d + 1) a e h
+        have he : e - d = (e - (d + 1)) + 1 := by omega
+        refine ⟨by omega, h2, ?_, ?_⟩
+        · rw [he]; simp [parentIter, hp, h3]
+        · intro j hj x hx
+          cases j with
+          | zero => simp [parentIter] at hx; subst hx; simpa using hf
+          | succ j =>
+            simp [parentIter, hp] at hx
+            exact h4 j (by omega) x hx
+
+/-- `none` only if nothing on the chain (within the fuel) satisfies the predicate -/
+theorem getAncestor_none (s : St) (fn : Nat → Bool) : ∀ (fuel n d : Nat),
+    getAncestor s fuel fn n d = none → ∀ j, j < fuel → ∀ x, parentIter s j n = some x → fn x = false
+  | 0, _, _, _, j, hj, _, _ => by omega
+  | f + 1, n, d, h, j, hj, x, hx => by
+    unfold getAncestor at h
+    by_cases hf : fn n = true
+    · simp [hf] at h
+    · simp [hf] at h
+      cases j with
+      | zero => simp [parentIter] at hx; subst hx; simpa using hf
+      | succ j =>
+        cases hp : s.parent n with
+        | none => simp [parentIter, hp] at hx
+        | some p =>
+          simp [parentIter, hp] at hx
+          simp [hp] at h
+          exact getAncestor_none s fn f p (d + 1) h j (by omega) x hx
+
+
+/-! ### every reachable state: `inv_step`, `inv_run` -/
+
+/-- the explicit, decidable-in-the-model preconditions ("valid use").  `copy` (pickle/deepcopy) is not in
+the alphabet of `inv_run`: its clauses are carried by the correspondence check. -/
+def Pre (s : St) : Op → Prop
+  | .new _ _ _ _ => s.parent s.next = none ∧ s.kids s.next = []
+  | .add _ c => s.parent c = none
+  | .insert _ _ c => s.parent c = none
+  | .remove p c => c ∈ s.kids p
+  | .removeAll _ => True
+  | .setChildren p items => items.Nodup ∧ ∀ c ∈ items, s.parent c = none ∨ s.parent c = some p
+  | .sort _ _ => True
+  | .reestablish _ => True
+  | .moveTo _ _ => True
+  | .copy _ => False
+
+/-- **One step**: every operation of the alphabet keeps parent/child agreement and duplicate-freeness,
+under its stated precondition. -/
+theorem inv_step (s : St) (op : Op) (h : Inv s) (hp : Pre s op) : Inv (step s op) := by
+  cases op with
+  | new k f t g =>
+    obtain ⟨h1, h2⟩ := hp
+    apply inv_of_eq (s := s) _ _ h
+    · funext x; simp only [step, newNode]; by_cases hx : x = s.next <;> simp [hx, h1]
+    · funext x; simp only [step, newNode]; by_cases hx : x = s.next <;> simp [hx, h2]
+  | add p c => exact add_inv s p c h hp
+  | insert p i c => exact insert_inv s p i c h hp
+  | remove p c => exact cRemove_inv s p c h hp
+  | removeAll p => exact (removeAll_inv s p h).1
+  | setChildren p items => exact setChildren_inv s p items h hp.1 hp.2
+  | sort p rank => exact sort_inv _ _ s p h
+  | reestablish a => exact inv_of_eq (s := s) rfl rfl h
+  | moveTo c hh =>
+    simp only [step, moveTo]
+    split
+    · exact h
+    · split
+      · exact inv_of_eq (s := s) rfl rfl h
+      · exact h
+  | copy n => exact absurd hp id
+
+/-- preconditions along a run -/
+def PreAll : St → List Op → Prop
+  | _, [] => True
+  | s, op :: rest => Pre s op ∧ PreAll (step s op) rest
+
+/-- **Every reachable state is well formed**: any finite sequence of edits (unbounded length), each
+used validly, from a well-formed state. -/
+theorem inv_run : ∀ (ops : List Op) (s : St), Inv s → PreAll s ops → Inv (ops.foldl step s)
+  | [], _, h, _ => h
+  | op :: rest, s, h, hp => inv_run rest (step s op) (inv_step s op h hp.1) hp.2
+
+theorem inv_empty : Inv St.empty := by
+  refine ⟨?_, ?_, ?_⟩
+  · intro p c hc; simp [St.empty] at hc
+  · intro c p hc; simp [St.empty] at hc
+  · intro p; simp [St.empty]
+
+/-- non-vacuity: a concrete 3-level history (core / assembly / block / component) satisfies every precondition -/
+example : PreAll St.empty
+    [.new kCore 0 0 true, .new kAssembly 0 0 true, .new kBlock 0 0 false, .new kComponent 1 1 false,
+     .add 2 3, .add 1 2, .add 0 1, .remove 2 3, .insert 2 (-5) 3, .removeAll 7] := by
+  simp [PreAll, Pre, step, newNode, St.empty, add, cAdd, kCore, kAssembly, kBlock, kComponent, setKids, setParent,
+    setLoc, reestablish, removeAll, seqOps, remove, cRemove, insert, cInsert]
+
+/-- acyclicity is kept by a valid add (the new child is not an ancestor of the parent) and by remove -/
+theorem cAdd_acyclic (s : St) (p c : Nat) (h : Inv s) (ha : Acyclic s) (hc : s.parent c = none)
+    (hcyc : ¬ Anc s c p) : Acyclic (cAdd s p c).1 := by
+  have hnot : c ∉ s.kids p := by intro hq; have := h.1 p c hq; simp [hc] at this
+  unfold cAdd; simp only [hnot, if_false]
+  exact acyclic_attach s p c _ h ha hc hcyc
+
+theorem cInsert_acyclic (s : St) (p : Nat) (i : Int) (c : Nat) (h : Inv s) (ha : Acyclic s)
+    (hc : s.parent c = none) (hcyc : ¬ Anc s c p) : Acyclic (cInsert s p i c).1 := by
+  have hnot : c ∉ s.kids p := by intro hq; have := h.1 p c hq; simp [hc] at this
+  unfold cInsert; simp only [hnot, if_false]
+  exact acyclic_attach s p c _ h ha hc hcyc
+
+theorem cRemove_acyclic (s : St) (p c : Nat) (ha : Acyclic s) : Acyclic (cRemove s p c).1 := by
+  obtain ⟨d, hd⟩ := ha
+  refine ⟨d, ?_⟩
+  intro x q hx
+  by_cases hxc : x = c
+  · subst hxc; unfold cRemove at hx; split at hx <;> simp [setKids, setLoc, setParent] at hx
+  · rw [cRemove_parent_other s p c x hxc] at hx; exact hd x q hx
+
+/-! ### the excluded points really break the invariant (F4): concrete witnesses -/
+
+private def w3 : St := newNode (newNode (newNode St.empty 0 0 0 false) 0 0 0 false) 0 0 0 false
+
+/-- `append` lists a child without setting its parent -/
+theorem append_breaks_inv : ¬ Inv (cAppend w3 0 2) := by
+  intro h
+  have := h.1 0 2 (by decide)
+  revert this; decide
+
+/-- `extend` likewise -/
+theorem extend_breaks_inv : ¬ Inv (cExtend w3 0 [1, 2]) := by
+  intro h
+  have := h.1 0 2 (by decide)
+  revert this; decide
+
+/-- `A.add(x); B.add(x)`: x stays in A's list while its parent is B -/
+theorem add_parented_breaks_inv : ¬ Inv (cAdd (cAdd w3 0 2).1 1 2).1 := by
+  intro h
+  have := h.1 0 2 (by decide)
+  revert this; decide
+
+/-- `B.remove(y)` for a child y of A: refused, but y's parent is already cleared -/
+theorem remove_nonchild_breaks_inv :
+    (cRemove (cAdd w3 0 2).1 1 2).2 = false ∧ ¬ Inv (cRemove (cAdd w3 0 2).1 1 2).1 := by
+  refine ⟨by decide, ?_⟩
+  intro h
+  have := h.1 0 2 (by decide)
+  revert this; decide
+
+/-- `A.add(B); B.add(A)` is accepted and produces a cycle -/
+theorem add_cycle_breaks_acyclic : (cAdd (cAdd w3 0 1).1 1 0).2 = true ∧ ¬ Acyclic (cAdd (cAdd w3 0 1).1 1 0).1 := by
+  refine ⟨by decide, ?_⟩
+  rintro ⟨d, hd⟩
+  have h1 := hd 1 0 (by decide)
+  have h2 := hd 0 1 (by decide)
+  omega
 
 end ArmiVerif.Tree
